@@ -60,6 +60,8 @@ type symTable map[string]*symPkg // by import path
 var (
 	canonObj   = map[types.Object]string{} // func: key; var/const: name; field: name
 	canonNotes []string
+	// baselineFuncs: package path -> keys of the functions of the pinned tree
+	baselineFuncs = map[string]map[string]bool{}
 )
 
 func qual(p *types.Package) string {
@@ -308,6 +310,10 @@ func buildCanon(p *Program) {
 	}
 	cur := currentSymbols(p)
 	for path, bp := range base {
+		baselineFuncs[path] = map[string]bool{}
+		for _, bf := range bp.Funcs {
+			baselineFuncs[path][bf.Key] = true
+		}
 		cp := cur[path]
 		pk := p.Pkgs[path]
 		if cp == nil || pk == nil {
